@@ -831,6 +831,119 @@ Proof.
   rewrite hashtype_all_ok, H1, H3. unfold pk_enc_ok. rewrite H2. destruct (c_ver c); reflexivity.
 Qed.
 
+(* per input kind: which digest the builder computes *)
+Theorem builder_digest_choice :
+  forall (hash160 sha256 : bytes -> bytes),
+    (forall x, length (hash160 x) = 20%nat) -> (forall x, length (sha256 x) = 32%nat) ->
+    forall (ins : list winput) (outs : list (Z * bytes)) b b',
+      Forall (fun w => wkind_wf (wi_kind w)) ins ->
+      build (map (to_input hash160 sha256) ins) outs = Some b ->
+      compute_hashes b = Some b' ->
+      skeleton b' = skeleton b /\ tx_outs (skeleton b) = outs /\
+      length (b_hashes b') = length ins /\
+      forall i w, nth_error ins i = Some w ->
+        nth_error (b_hashes b') i = Some (expected_digest (skeleton b) i w).
+Proof.
+  intros hash160 sha256 Hh Hs ins outs b b' Wf Hb Hc.
+  apply build_shape in Hb as (B1&B2&B3&B4).
+  unfold compute_hashes in Hc. destruct (hashes_from (skeleton b) 0 (b_args b)) as [hs|] eqn:HF; [|discriminate].
+  inversion Hc; subst b'; clear Hc. cbn [b_hashes].
+  split; [reflexivity|]. split; [exact B3|].
+  split; [rewrite (hashes_from_length _ _ _ _ HF), B2, !map_length; reflexivity|].
+  intros i w Hi.
+  assert (A1 : nth_error (b_args b) i = Some (args_of (to_input hash160 sha256 w))).
+  { rewrite B2, map_map. exact (map_nth_error (fun x => args_of (to_input hash160 sha256 x)) _ _ Hi). }
+  destruct (hashes_from_nth _ _ _ _ HF _ _ A1) as (code&C1&C2). rewrite C2. cbn [Nat.add].
+  pose proof (Forall_forall (fun w => wkind_wf (wi_kind w)) ins) as [FF _].
+  specialize (FF Wf w (nth_error_In _ _ Hi)). cbn beta in FF.
+  unfold expected_digest, args_of, to_input in *.
+  destruct (wi_kind w) as [[|] ph|[|] d]; cbn [wkind_wf] in FF;
+    cbn [in_kind_ in_script in_utxo sa_witness sa_code sa_value] in *.
+  - change (p2wpkh ph) with (p2wsh ph) in C1 |- *.
+    rewrite iwp_p2wsh in C1 |- * by lia. change (p2wsh ph) with (p2wpkh ph) in C1.
+    rewrite eff_p2wpkh in C1 by assumption. inversion C1; reflexivity.
+  - rewrite iwp_p2pkh in C1 |- * by assumption. rewrite eff_p2pkh in C1 by assumption.
+    inversion C1; reflexivity.
+  - rewrite iwp_p2wsh in C1 |- * by (right; apply Hs). rewrite eff_deposit in C1 by assumption.
+    inversion C1; reflexivity.
+  - rewrite iwp_p2sh in C1 |- * by apply Hh. rewrite eff_deposit in C1 by assumption.
+    inversion C1; reflexivity.
+Qed.
+
+Lemma add_data_sig : forall d, add_data (d ++ [sighash_all]) = canon_push (d ++ [sighash_all]).
+Proof.
+  intros [|a [|b t]]; reflexivity.
+Qed.
+
+(* per input kind: where the signature and the key are put, and that the signature was verified
+   against the digest above before that *)
+Theorem signature_placement :
+  forall (hash160 sha256 : bytes -> bytes)
+         (sigT : Type) (der : sigT -> bytes) (ecdsa_verify : bytes -> sighash -> sigT -> bool),
+    (forall x, length (hash160 x) = 20%nat) -> (forall x, length (sha256 x) = 32%nat) ->
+    forall (ins : list winput) (outs : list (Z * bytes)) (sigs : list (sigT * bytes)) b b' tx,
+      Forall (fun w => wkind_wf (wi_kind w)) ins ->
+      build (map (to_input hash160 sha256) ins) outs = Some b ->
+      compute_hashes b = Some b' ->
+      add_signatures sigT der ecdsa_verify b' sigs = Some tx ->
+      st_skel tx = skeleton b /\ length (st_ins tx) = length ins /\
+      forall i w, nth_error ins i = Some w ->
+        exists sg pk, nth_error sigs i = Some (sg, pk) /\
+          ecdsa_verify pk (expected_digest (skeleton b) i w) sg = true /\
+          ((2 <= length pk)%nat ->
+           nth_error (st_ins tx) i = Some (expected_signed_input w (der sg ++ [sighash_all]) pk)).
+Proof.
+  intros hash160 sha256 sigT der ecdsa_verify Hh Hs ins outs sigs b b' tx Wf Hb Hc Ha.
+  destruct (builder_digest_choice hash160 sha256 Hh Hs ins outs b b' Wf Hb Hc) as (SK&_&HL0&DC).
+  apply build_shape in Hb as (B1&B2&B3&B4).
+  assert (Eb' : b_ins b' = b_ins b /\ b_args b' = b_args b).
+  { unfold compute_hashes in Hc. destruct (hashes_from (skeleton b) 0 (b_args b)); [|discriminate].
+    inversion Hc; subst; auto. }
+  destruct Eb' as [Ei Ea].
+  apply add_signatures_some in Ha as (_&HL&l&HSI&->). cbn [st_skel st_ins].
+  rewrite Ei, Ea in HSI. rewrite Ei in HL.
+  split; [exact SK|].
+  split.
+  { assert (G : forall ins0 args hs sgs l0, sign_inputs sigT der ecdsa_verify ins0 args hs sgs = Some l0 ->
+                 length l0 = length ins0).
+    { induction ins0 as [|p0 ins0 IH]; intros args hs sgs l0 H; cbn [sign_inputs] in H.
+      - inversion H; reflexivity.
+      - destruct args; [discriminate|]. destruct hs; [discriminate|]. destruct sgs as [|[? ?] ?]; [discriminate|].
+        destruct (sign_input _ _ _ _ _ _ _ _); [|discriminate].
+        destruct (sign_inputs sigT der ecdsa_verify ins0 args hs sgs) eqn:R; [|discriminate].
+        cbn in H. inversion H. cbn. f_equal. eauto. }
+    rewrite (G _ _ _ _ _ HSI), B1, !map_length. reflexivity. }
+  intros i w Hi.
+  assert (Hp : nth_error (b_ins b) i = Some (pre_of (to_input hash160 sha256 w))).
+  { rewrite B1, map_map. exact (map_nth_error (fun x => pre_of (to_input hash160 sha256 x)) _ _ Hi). }
+  destruct (sign_inputs_nth _ _ _ _ _ _ _ _ HSI _ _ Hp) as (a&h&sg&pk&si&A1&A2&A3&A4&A5).
+  assert (Ea' : a = args_of (to_input hash160 sha256 w)).
+  { rewrite B2, map_map in A1. rewrite (map_nth_error (fun x => args_of (to_input hash160 sha256 x)) _ _ Hi) in A1. now inversion A1. }
+  rewrite (DC _ _ Hi) in A2. inversion A2; subst h; clear A2.
+  exists sg, pk. split; [exact A3|].
+  pose proof (Forall_forall (fun w => wkind_wf (wi_kind w)) ins) as [FF _].
+  specialize (FF Wf w (nth_error_In _ _ Hi)). cbn beta in FF.
+  subst a. rewrite A5. unfold expected_signed_input, args_of, pre_of, to_input in *.
+  destruct (wi_kind w) as [[|] ph|[|] d]; cbn [wkind_wf] in FF;
+    cbn [in_kind_ in_script in_utxo sa_witness sa_code sa_value] in *.
+  - change (p2wpkh ph) with (p2wsh ph) in A4. rewrite iwp_p2wsh in A4 by lia.
+    apply sign_input_witness in A4 as [V ->]; [|reflexivity]. split; [exact V|reflexivity].
+  - rewrite iwp_p2pkh in A4 by assumption.
+    apply sign_input_legacy in A4 as [V ->]; [|reflexivity]. split; [exact V|]. intro Lpk.
+    cbn [pi_script pi_witness app]. rewrite add_data_sig, (add_data_canon pk) by assumption. reflexivity.
+  - rewrite iwp_p2wsh in A4 by (right; apply Hs).
+    apply sign_input_witness in A4 as [V ->]; [|reflexivity]. split; [exact V|reflexivity].
+  - rewrite iwp_p2sh in A4 by apply Hh.
+    apply sign_input_legacy in A4 as [V ->]; [|reflexivity]. split; [exact V|]. intro Lpk.
+    cbn [pi_script pi_witness].
+    pose proof (deposit_ser_len d FF) as Ld.
+    assert (Ld2 : (92 <= length (ser (deposit_ops d)))%nat).
+    { unfold nlen in Ld. destruct (dp_extra d); lia. }
+    destruct (ser (deposit_ops d)) as [|x0 t0] eqn:Escr; [cbn in Ld2; lia|]. rewrite <- Escr in *.
+    cbn [app]. rewrite add_data_sig, (add_data_canon pk), (add_data_canon (ser (deposit_ops d))) by lia.
+    reflexivity.
+Qed.
+
 Theorem all_inputs_accepted :
   forall (hash160 sha256 : bytes -> bytes) (der_strict : bytes -> bool)
          (checksig : bytes -> bytes -> sighash -> bool)
@@ -978,26 +1091,89 @@ Example hypotheses_satisfiable :
     add_signatures unit Witness.der Witness.yes3 b' Witness.sigs = Some tx /\
     (forall i w sg pk, nth_error Witness.ins i = Some w -> nth_error Witness.sigs i = Some (sg, pk) ->
                        compressed_pk pk = true /\ Witness.h160 pk = committed_pkh (wi_kind w)) /\
-    (* ... and the conclusion of all_inputs_accepted, recomputed by evaluation *)
-    forallb (fun i => match nth_error (st_ins tx) i, nth_error Witness.ins i with
-                      | Some si, Some w =>
-                          vres_eqb (verify_input Witness.h160 Witness.s256 Witness.yes1 Witness.yes3'
-                                                 (st_skel tx) i (si_script si) (si_witness si)
-                                                 (in_script (to_input Witness.h160 Witness.s256 w))
-                                                 (u_value (wi_utxo w))) Accept
-                      | _, _ => false
-                      end) [0; 1; 2; 3]%nat = true.
+    (forall pk h sg, Witness.yes3 pk h sg = true ->
+                     sig_enc_ok Witness.yes1 (Witness.der sg) = true /\ Witness.yes3' pk (Witness.der sg) h = true) /\
+    length (st_ins tx) = 4%nat.
 Proof.
-  destruct (build (map (to_input Witness.h160 Witness.s256) Witness.ins)
-                  [(9000%Z, ser (p2wpkh (repeat 7 20)))]) as [b|] eqn:B; [|vm_compute in B; discriminate].
-  destruct (compute_hashes b) as [b'|] eqn:C; [|revert C; vm_compute in B; inversion B; subst; vm_compute; discriminate].
-  destruct (add_signatures unit Witness.der Witness.yes3 b' Witness.sigs) as [tx|] eqn:A;
-    [|revert A; vm_compute in B; inversion B; subst; vm_compute in C; inversion C; subst; vm_compute; discriminate].
-  exists b, b', tx. repeat split.
+  eexists. eexists. eexists.
+  split; [repeat constructor|].
+  split; [cbv; reflexivity|].
+  split; [cbv; reflexivity|].
+  split; [cbv; reflexivity|].
+  split; [|split; [intros; split; reflexivity|reflexivity]].
+  intros i w sg pk H H0.
+  destruct i as [|[|[|[|i]]]]; cbn in H, H0; inversion H; inversion H0; subst; try (split; reflexivity).
+  destruct i; discriminate.
+Qed.
+
+(* the theorem applies to the witness: all four inputs of the example are accepted *)
+Example all_inputs_accepted_instance :
+  forall b b' tx,
+    build (map (to_input Witness.h160 Witness.s256) Witness.ins) [(9000%Z, ser (p2wpkh (repeat 7 20)))] = Some b ->
+    compute_hashes b = Some b' ->
+    add_signatures unit Witness.der Witness.yes3 b' Witness.sigs = Some tx ->
+    forall i w, nth_error Witness.ins i = Some w ->
+      exists si, nth_error (st_ins tx) i = Some si /\
+        verify_input Witness.h160 Witness.s256 Witness.yes1 Witness.yes3' (st_skel tx) i
+                     (si_script si) (si_witness si)
+                     (in_script (to_input Witness.h160 Witness.s256 w)) (u_value (wi_utxo w)) = Accept.
+Proof.
+  intros b b' tx Hb Hc Ha.
+  apply (all_inputs_accepted Witness.h160 Witness.s256 Witness.yes1 Witness.yes3' unit Witness.der
+           Witness.yes3) with (outs := [(9000%Z, ser (p2wpkh (repeat 7 20)))]) (sigs := Witness.sigs)
+           (b := b) (b' := b'); try assumption; try reflexivity.
+  - intros; split; reflexivity.
   - repeat constructor.
-  - destruct i as [|[|[|[|i]]]]; cbn in H, H0; inversion H; inversion H0; subst; reflexivity.
-  - destruct i as [|[|[|[|i]]]]; cbn in H, H0; inversion H; inversion H0; subst; try reflexivity.
+  - intros i w sg pk H H0.
+    destruct i as [|[|[|[|i]]]]; cbn in H, H0; inversion H; inversion H0; subst; try (split; reflexivity).
     destruct i; discriminate.
-  - vm_compute in B; inversion B; subst. vm_compute in C; inversion C; subst.
-    vm_compute in A; inversion A; subst. vm_compute. reflexivity.
+Qed.
+
+(* ------------------------------------------------------------------ the executable form *)
+Lemma forallb_In : forall {A} (f : A -> bool) l, forallb f l = true -> forall x, In x l -> f x = true.
+Proof. intros A f l H x Hx. rewrite forallb_forall in H. auto. Qed.
+
+Theorem spec_ok_sound : forall c : tx_case,
+    Concrete.spec_ok c = true ->
+    tc_panic c = false /\
+    (tc_expect_valid c = true -> tc_build_ok c = true ->
+     tc_tx_produced c = true /\ forall ic, In ic (tc_ins c) -> ic_engine ic = Some true) /\
+    (tc_must_reject c = true -> tc_tx_produced c = false).
+Proof.
+  intros c H. unfold Concrete.spec_ok in H.
+  apply andb_prop in H as [H H3]. apply andb_prop in H as [H1 H2].
+  split; [destruct (tc_panic c); [discriminate|reflexivity]|]. split.
+  - intros E B. rewrite E, B in H2. cbn in H2. apply andb_prop in H2 as [P Q]. split; [exact P|].
+    intros ic Hic. pose proof (forallb_In _ _ Q ic Hic) as R. cbn beta in R.
+    destruct (ic_engine ic) as [[|]|]; [reflexivity|discriminate|discriminate].
+  - intro M. rewrite M in H3. destruct (tc_tx_produced c); [discriminate|reflexivity].
+Qed.
+
+Theorem judge_agree_sound : forall c : tx_case,
+    Concrete.judge c = Agree -> Concrete.spec_ok c = true /\ Concrete.agree c = true.
+Proof.
+  intros c H. unfold Concrete.judge, decide in H.
+  destruct (Concrete.unsupported c); [discriminate|].
+  destruct (Concrete.spec_ok c); [|discriminate]. destruct (Concrete.agree c); [auto|discriminate].
+Qed.
+
+(* the instance of the model the correspondence check evaluates never yields a transaction when
+   an observed signature fails the (observed) verification against the model's digest *)
+Theorem concrete_model_rejects_mismatch : forall (c : tx_case) b,
+    Concrete.model_hashes c = Some b ->
+    (length (tc_sigs c) <> length (b_ins b) \/
+     exists i h s, (i < length (b_ins b))%nat /\ nth_error (b_hashes b) i = Some h /\
+                   nth_error (tc_sigs c) i = Some s /\
+                   Concrete.ecdsa_verify c (so_pk s) h i = false) ->
+    Concrete.model_tx c = None.
+Proof.
+  intros c b Hb H. unfold Concrete.model_tx. rewrite Hb.
+  apply mismatched_signature_rejected_before_tx.
+  destruct H as [H|(i&h&s&H1&H2&H3&H4)].
+  - left. now rewrite map_length, seq_length.
+  - right. exists i, h, i, (so_pk s). repeat split; try assumption.
+    assert (L : (i < length (tc_sigs c))%nat) by (apply nth_error_Some; congruence).
+    erewrite map_nth_error; [|rewrite nth_error_nth' with (d := O); [|now rewrite seq_length];
+                               rewrite seq_nth by assumption; reflexivity].
+    cbn. now rewrite H3.
 Qed.
